@@ -95,6 +95,12 @@ def run_case(tid, kind, nrec, variant, sig, chunk, rng, badhash=None):
     patched = None
     try:
         what, size = make_payload(kind, nrec, variant, sdir, rng)
+        stale = kind == "file" and (tid % 2 == 0)
+        if stale:
+            # history: an earlier transfer of this name into this directory was cut and left its temporary file behind
+            with open(os.path.join(rdir, what + ".tmp"), "wb") as f:
+                f.write(b"left over from a transfer that was cut " * (1 + tid % 7))
+        rec["staleTmp"] = bool(stale)
         w = X.XferWorld(base)
         w.chunk = chunk
         w.start_send(sdir, what=what)
